@@ -145,3 +145,12 @@ Definition names_keptb (p p' : profile) : bool :=
 
 Definition id_headroomb (p p' : profile) : bool :=
   max_fid (p_function p) + Z.of_nat (List.length (p_function p') - List.length (p_function p)) <? two64.
+
+(* ------------------------------------------------------------------ the driver's pipeline (fetchProfiles)
+   The same relations are demanded between the fetched profile (with the documented fake mapping
+   when it has no mapping at all) and the profile fetchProfiles returns.
+   F34 (class 34): unsourceMappings erases the file name of EVERY build-id-less mapping whose file
+   parses as an absolute URL, not only of the ones collectMappingSources rewrote. *)
+Definition sourced_like (absurl : string -> bool) (m : mapping) : bool :=
+  str_empty (m_buildid m) && negb (str_empty (m_file m)) && absurl (m_file m).
+Definition in_F34 (absurl : string -> bool) (p : profile) : bool := existsb (sourced_like absurl) (p_mapping p).
